@@ -1356,29 +1356,35 @@ func regRounds(w *World, r *EngineResult) {
 				if !takesErr {
 					continue
 				}
+				// the function records: it appends to a []error field somewhere in its body
+				records := false
+				ast.Inspect(fd.Body, func(m ast.Node) bool {
+					if as, ok := m.(*ast.AssignStmt); ok && len(as.Lhs) == 1 {
+						if sel, ok := as.Lhs[0].(*ast.SelectorExpr); ok {
+							if v, ok := pp.TypesInfo.ObjectOf(sel.Sel).(*types.Var); ok && v.IsField() {
+								if sl, ok := v.Type().Underlying().(*types.Slice); ok && types.Identical(sl.Elem(), errorType) {
+									records = true
+								}
+							}
+						}
+					}
+					return true
+				})
+				if !records {
+					continue
+				}
+				// the round test that guards it: `if ctx.P() { record }` or `if !ctx.P() { return }`
 				ast.Inspect(fd.Body, func(nd ast.Node) bool {
 					ifs, ok := nd.(*ast.IfStmt)
 					if !ok {
 						return true
 					}
-					records := false
-					ast.Inspect(ifs.Body, func(m ast.Node) bool {
-						if as, ok := m.(*ast.AssignStmt); ok && len(as.Lhs) == 1 {
-							if sel, ok := as.Lhs[0].(*ast.SelectorExpr); ok {
-								if v, ok := pp.TypesInfo.ObjectOf(sel.Sel).(*types.Var); ok && v.IsField() {
-									if sl, ok := v.Type().Underlying().(*types.Slice); ok && types.Identical(sl.Elem(), errorType) {
-										records = true
-									}
-								}
-							}
-						}
-						return true
-					})
-					if !records {
-						return true
-					}
 					for _, cj := range conjuncts(ifs.Cond) {
-						if call, ok := ast.Unparen(cj).(*ast.CallExpr); ok && len(call.Args) == 0 {
+						e := ast.Unparen(cj)
+						if u, ok := e.(*ast.UnaryExpr); ok && u.Op == token.NOT {
+							e = ast.Unparen(u.X)
+						}
+						if call, ok := e.(*ast.CallExpr); ok && len(call.Args) == 0 {
 							if sel, ok := call.Fun.(*ast.SelectorExpr); ok {
 								if fo, ok := pp.TypesInfo.ObjectOf(sel.Sel).(*types.Func); ok && fo.Pkg() != nil && fo.Pkg().Path() == cp.PkgPath {
 									pred = fo
